@@ -4,6 +4,19 @@ use monero::{Amount, SignedAmount};
 
 fn show_opt<T: std::fmt::Display>(o: Option<T>) -> String { match o { Some(v) => format!("some {}", v), None => "none".into() } }
 fn show_res(r: Result<String, String>) -> String { match r { Ok(v) => format!("val {}", v), Err(_) => "panic".into() } }
+/// Profile-independent observation for the operator / assigning forms. The harness is built with `overflow-checks = true`, so a body
+/// written with a plain `+ - *` (or unary `-`) panics here exactly where `expect` on the checked form does — and WRAPS in a build without
+/// overflow checks. The two are told apart by the panic message: a compiler-inserted overflow check says `attempt to <add|subtract|
+/// multiply|negate|shift ..> with overflow`. (Division / remainder by zero and `MIN / -1` panic in every profile; they are not flagged.)
+/// Such a panic is reported as a MISMATCH line (differs from model and spec), never as a plain `panic`.
+fn profile_dependent(msg: &str) -> bool {
+    ["attempt to add with overflow", "attempt to subtract with overflow", "attempt to multiply with overflow", "attempt to negate with overflow", "attempt to shift"].iter().any(|p| msg.starts_with(p))
+}
+fn show_res_op(r: Result<String, String>) -> String {
+    match r { Ok(v) => format!("val {}", v),
+        Err(m) if profile_dependent(&m) => format!("MISMATCH the panic is a compiler-inserted overflow check ({}): this operator wraps in a build without overflow-checks", m),
+        Err(_) => "panic".into() }
+}
 
 pub fn exec(t: &[&str]) -> Option<String> {
     match t {
@@ -12,18 +25,46 @@ pub fn exec(t: &[&str]) -> Option<String> {
         ["amt_chk", "s", op, a, b] => { let (a, b): (i64, i64) = (a.parse().ok()?, b.parse().ok()?); let x = SignedAmount::from_pico(a);
             Some(show_opt(match *op { "add" => x.checked_add(SignedAmount::from_pico(b)), "sub" => x.checked_sub(SignedAmount::from_pico(b)), "mul" => x.checked_mul(b), "div" => x.checked_div(b), "rem" => x.checked_rem(b), _ => return None }.map(|v| v.as_pico()))) }
         ["amt_op", "u", op, a, b] => { let (a, b): (u64, u64) = (a.parse().ok()?, b.parse().ok()?); let op = op.to_string();
-            Some(show_res(guarded(move || { let x = Amount::from_pico(a); match op.as_str() { "add" => x + Amount::from_pico(b), "sub" => x - Amount::from_pico(b), "mul" => x * b, "div" => x / b, _ => x % b }.as_pico().to_string() }))) }
+            Some(show_res_op(guarded(move || { let x = Amount::from_pico(a); match op.as_str() { "add" => x + Amount::from_pico(b), "sub" => x - Amount::from_pico(b), "mul" => x * b, "div" => x / b, _ => x % b }.as_pico().to_string() }))) }
         ["amt_op", "s", op, a, b] => { let (a, b): (i64, i64) = (a.parse().ok()?, b.parse().ok()?); let op = op.to_string();
-            Some(show_res(guarded(move || { let x = SignedAmount::from_pico(a); match op.as_str() { "add" => x + SignedAmount::from_pico(b), "sub" => x - SignedAmount::from_pico(b), "mul" => x * b, "div" => x / b, _ => x % b }.as_pico().to_string() }))) }
+            Some(show_res_op(guarded(move || { let x = SignedAmount::from_pico(a); match op.as_str() { "add" => x + SignedAmount::from_pico(b), "sub" => x - SignedAmount::from_pico(b), "mul" => x * b, "div" => x / b, _ => x % b }.as_pico().to_string() }))) }
         ["amt_asg", "u", op, a, b] => { let (a, b): (u64, u64) = (a.parse().ok()?, b.parse().ok()?); let op = op.to_string();
-            Some(show_res(guarded(move || { let mut x = Amount::from_pico(a); match op.as_str() { "add" => x += Amount::from_pico(b), "sub" => x -= Amount::from_pico(b), "mul" => x *= b, "div" => x /= b, _ => x %= b }; x.as_pico().to_string() }))) }
+            Some(show_res_op(guarded(move || { let mut x = Amount::from_pico(a); match op.as_str() { "add" => x += Amount::from_pico(b), "sub" => x -= Amount::from_pico(b), "mul" => x *= b, "div" => x /= b, _ => x %= b }; x.as_pico().to_string() }))) }
         ["amt_asg", "s", op, a, b] => { let (a, b): (i64, i64) = (a.parse().ok()?, b.parse().ok()?); let op = op.to_string();
-            Some(show_res(guarded(move || { let mut x = SignedAmount::from_pico(a); match op.as_str() { "add" => x += SignedAmount::from_pico(b), "sub" => x -= SignedAmount::from_pico(b), "mul" => x *= b, "div" => x /= b, _ => x %= b }; x.as_pico().to_string() }))) }
+            Some(show_res_op(guarded(move || { let mut x = SignedAmount::from_pico(a); match op.as_str() { "add" => x += SignedAmount::from_pico(b), "sub" => x -= SignedAmount::from_pico(b), "mul" => x *= b, "div" => x /= b, _ => x %= b }; x.as_pico().to_string() }))) }
         ["amt_to_signed", a] => Some(show_opt(Amount::from_pico(a.parse().ok()?).to_signed().ok().map(|v| v.as_pico()))),
         ["amt_to_unsigned", a] => Some(show_opt(SignedAmount::from_pico(a.parse().ok()?).to_unsigned().ok().map(|v| v.as_pico()))),
         ["amt_possub", a, b] => Some(show_opt(SignedAmount::from_pico(a.parse().ok()?).positive_sub(SignedAmount::from_pico(b.parse().ok()?)).map(|v| v.as_pico()))),
+        // arithmetic of the same impl outside the statement's list (audit 3g): abs (plain `i64::abs`: panics at MIN in this build), checked_abs, signum
+        ["amt_abs", a] => { let a: i64 = a.parse().ok()?; Some(show_res(guarded(move || SignedAmount::from_pico(a).abs().as_pico().to_string()))) }
+        ["amt_checked_abs", a] => Some(show_opt(SignedAmount::from_pico(a.parse().ok()?).checked_abs().map(|v| v.as_pico()))),
+        ["amt_signum", a] => Some(SignedAmount::from_pico(a.parse().ok()?).signum().to_string()),
         _ => None,
     }
+}
+
+/// the exact integer result iff representable and the divisor is non-zero — computed in Rust on i128 / u128 magnitudes (unsigned
+/// division of the magnitudes, sign of the quotient = product of signs, sign of the remainder = sign of the dividend), independently of
+/// the Lean spec and of the library
+fn exact(signed: bool, op: &str, a: i128, b: i128) -> Option<i128> {
+    let (lo, hi) = if signed { (i64::MIN as i128, i64::MAX as i128) } else { (0, u64::MAX as i128) };
+    let r = match op {
+        "add" => a + b, "sub" => a - b, "mul" => match a.checked_mul(b) { Some(v) => v, None => return None },   // |a·b| >= 2^127: far outside both ranges
+        "div" | "rem" => { if b == 0 { return None; }
+            let (ma, mb) = (a.unsigned_abs(), b.unsigned_abs()); let (q, r) = (ma / mb, ma - (ma / mb) * mb);
+            if op == "div" { if (a < 0) != (b < 0) { -(q as i128) } else { q as i128 } } else if a < 0 { -(r as i128) } else { r as i128 } }
+        _ => return None };
+    if r < lo || r > hi { None } else { Some(r) }
+}
+/// one arithmetic line plus the direct (Rust-side) check of its result against the exact integer
+fn arith(o: &mut Out, form: &str, ty: &str, op: &str, a: i128, b: i128) -> String {
+    let line = format!("{} {} {} {} {}", form, ty, op, a, b);
+    let r = o.op(line.clone(), true);
+    if ty == "s" && op == "rem" && a == i64::MIN as i128 && b == -1 { return r; }   // the recorded known finding, reported by the line itself
+    let e = exact(ty == "s", op, a, b);
+    let want = match (form, e) { ("amt_chk", Some(v)) => format!("some {}", v), ("amt_chk", None) => "none".into(), (_, Some(v)) => format!("val {}", v), (_, None) => "panic".into() };
+    o.direct(r == want, "amount arithmetic = exact integer result iff representable and divisor non-zero (i128 oracle)", line, r.clone(), want);
+    r
 }
 
 fn isqrt(n: u128) -> u128 { let mut x = (n as f64).sqrt() as u128; while x * x > n { x -= 1; } while (x + 1) * (x + 1) <= n { x += 1; } x }
@@ -41,8 +82,8 @@ pub fn run(o: &mut Out, tier: &str, seed: u64) {
     us.sort(); us.dedup(); ss.sort(); ss.dedup();
     let ops = ["add", "sub", "mul", "div", "rem"];
     for form in ["amt_chk", "amt_op", "amt_asg"] { for op in ops {
-        for &a in &us { for &b in &us { let r = o.op(format!("{} u {} {} {}", form, op, a, b), true); o.stat(&format!("{}.u.{}.{}", form, op, r.split(' ').next().unwrap())); } }
-        for &a in &ss { for &b in &ss { let r = o.op(format!("{} s {} {} {}", form, op, a, b), true); o.stat(&format!("{}.s.{}.{}", form, op, r.split(' ').next().unwrap())); } }
+        for &a in &us { for &b in &us { let r = arith(o, form, "u", op, a as i128, b as i128); o.stat(&format!("{}.u.{}.{}", form, op, r.split(' ').next().unwrap())); } }
+        for &a in &ss { for &b in &ss { let r = arith(o, form, "s", op, a as i128, b as i128); o.stat(&format!("{}.s.{}.{}", form, op, r.split(' ').next().unwrap())); } }
     } }
     for &a in &us { o.op(format!("amt_to_signed {}", a), true); }
     for &a in &ss { o.op(format!("amt_to_unsigned {}", a), true); for &b in &ss { o.op(format!("amt_possub {} {}", a, b), true); } }
@@ -52,11 +93,82 @@ pub fn run(o: &mut Out, tier: &str, seed: u64) {
         let form = *rng.pick(&["amt_chk", "amt_op", "amt_asg"]); let op = *rng.pick(&ops);
         if rng.chance(1, 2) {
             let (a, b) = match rng.below(3) { 0 => { let a = rng.next(); (a, (u64::MAX - a).wrapping_add(rng.below(5)).wrapping_sub(2)) } 1 => { let b = { let k = rng.range(1, 40); rng.range(1, 1 << k) }; ((u64::MAX / b).wrapping_add(rng.below(3)), b) } _ => (rng.u64_boundary(), rng.u64_boundary()) };
-            o.op(format!("{} u {} {} {}", form, op, a, b), true);
+            arith(o, form, "u", op, a as i128, b as i128);
         } else {
             let (a, b) = match rng.below(3) { 0 => { let a = rng.next() as i64; let t = if a >= 0 { i64::MAX } else { i64::MIN }; (a, t.wrapping_sub(a).wrapping_add(rng.below(5) as i64 - 2)) } 1 => { let b = ({ let k = rng.range(1, 40); rng.range(1, 1 << k) } as i64) * if rng.chance(1, 2) { -1 } else { 1 }; ((if rng.chance(1, 2) { i64::MAX } else { i64::MIN }).wrapping_div(b).wrapping_add(rng.below(3) as i64 - 1), b) } _ => (rng.u64_boundary() as i64, rng.u64_boundary() as i64) };
-            o.op(format!("{} s {} {} {}", form, op, a, b), true);
+            arith(o, form, "s", op, a as i128, b as i128);
         }
     }
-    o.notes.push(format!("complete grid over {} unsigned x {} signed boundary values x 5 ops x 3 forms, conversions, positive_sub, plus random near-boundary pairs; every case non-trivial", us.len(), ss.len()));
+    // ---- added families (audit C18 §4c/§4d/§5.5) ------------------------------------------------------------------------------
+    let k = if tier == "thorough" { 10 } else { 1 };
+    let forms = ["amt_chk", "amt_op", "amt_asg"];
+    // (D) division / remainder on mid-range operands: dividend uniform over the whole range (both signs), |divisor| log-uniform in
+    // 2..2^62; and dividends built as q*b + r with r in {0, ±1, ±(|b|-1)} (the rounding convention is decided by exactly these)
+    for i in 0..6_000 * k {
+        let form = forms[(i % 3) as usize]; let op = if rng.chance(1, 2) { "div" } else { "rem" };
+        let mb = { let e = rng.range(1, 61); (1u64 << e) + rng.below(1u64 << e) };                       // 2 ..< 2^62, log-uniform
+        if rng.chance(1, 2) {
+            let a = if rng.chance(1, 2) { rng.next() } else { let q = rng.next() / mb; let r = *rng.pick(&[0u64, 1, mb - 1, mb / 2]); q.saturating_mul(mb).saturating_add(r) };
+            arith(o, form, "u", op, a as i128, mb as i128); o.stat("divrem.u");
+        } else {
+            let b = if rng.chance(1, 2) { -(mb as i64) } else { mb as i64 };
+            let a = if rng.chance(1, 2) { rng.next() as i64 } else {
+                let q = (rng.next() as i64) / (mb as i64); let r = *rng.pick(&[0i64, 1, -1, mb as i64 - 1, -(mb as i64 - 1)]);
+                q.checked_mul(b).and_then(|x| x.checked_add(r)).unwrap_or(rng.next() as i64) };
+            arith(o, form, "s", op, a as i128, b as i128); o.stat(&format!("divrem.s.{}{}", if a < 0 { "-" } else { "+" }, if b < 0 { "-" } else { "+" }));
+        }
+    }
+    // (E) all five operations on operands of independent, log-uniform magnitude (neither near a boundary nor in the grid)
+    for i in 0..3_000 * k {
+        let form = forms[(i % 3) as usize]; let op = ops[(i / 3 % 5) as usize];
+        let mag = |rng: &mut Rng| { let e = rng.below(64); if e == 0 { rng.below(2) } else { (1u64 << e) | (rng.next() & ((1u64 << e) - 1)) } };
+        let (ma, mb) = (mag(&mut rng), mag(&mut rng));
+        if rng.chance(1, 2) { arith(o, form, "u", op, ma as i128, mb as i128); } else {
+            let sg = |rng: &mut Rng, m: u64| { let v = (m >> 1) as i64; if rng.chance(1, 2) { -v } else { v } };
+            let (a, b) = (sg(&mut rng, ma), sg(&mut rng, mb)); arith(o, form, "s", op, a as i128, b as i128); }
+        o.stat("loguniform");
+    }
+    // (F) conversions and positive_sub beyond the grid: to_signed around 2^63 and random; to_unsigned around 0 and random;
+    // positive_sub on (a, a±k), both signs, uniform pairs, and pairs that agree / differ only in the low or high 32 bits (narrowing)
+    for _ in 0..1_000 * k {
+        let a = match rng.below(4) { 0 => (1u64 << 63).wrapping_add(rng.below(9)).wrapping_sub(4), 1 => rng.next(), 2 => rng.u64_boundary(), _ => rng.next() >> rng.below(64) };
+        let r = o.op(format!("amt_to_signed {}", a), true);
+        let want = if a <= i64::MAX as u64 { format!("some {}", a) } else { "none".to_string() };
+        o.direct(r == want, "to_signed(a) ok iff a <= 2^63-1, exact", a.to_string(), r, want); o.stat("to_signed.random");
+        let a = match rng.below(4) { 0 => rng.below(9) as i64 - 4, 1 => rng.next() as i64, 2 => rng.u64_boundary() as i64, _ => ((rng.next() >> rng.below(64)) as i64).wrapping_neg() };
+        let r = o.op(format!("amt_to_unsigned {}", a), true);
+        let want = if a >= 0 { format!("some {}", a) } else { "none".to_string() };
+        o.direct(r == want, "to_unsigned(a) ok iff a >= 0, exact", a.to_string(), r, want); o.stat("to_unsigned.random");
+    }
+    for _ in 0..3_000 * k {
+        let a = match rng.below(4) { 0 => rng.next() as i64, 1 => (rng.next() >> 1) as i64, 2 => rng.u64_boundary() as i64, _ => (rng.next() >> rng.below(64)) as i64 };
+        let b = match rng.below(6) {
+            0 => a.wrapping_sub(rng.below(4) as i64), 1 => a.wrapping_add(rng.below(4) as i64), 2 => rng.next() as i64, 3 => (rng.next() >> 1) as i64,
+            4 => a ^ ((rng.next() as i64) << 32),                                  // same low 32 bits
+            _ => a ^ (rng.next() as u32 as i64) };                                  // same high 32 bits
+        let r = o.op(format!("amt_possub {} {}", a, b), true);
+        let want = if 0 <= b && b <= a { format!("some {}", a as i128 - b as i128) } else { "none".to_string() };
+        o.direct(r == want, "positive_sub(a,b) = a-b iff 0 <= b <= a", format!("{} {}", a, b), r.clone(), want); o.stat(&format!("possub.random.{}", r.split(' ').next().unwrap()));
+    }
+    // (G) abs / checked_abs / signum (same impl, outside the statement's list): signed grid plus random
+    let mut av: Vec<i64> = ss.clone(); for _ in 0..300 * k { av.push(match rng.below(3) { 0 => rng.next() as i64, 1 => rng.u64_boundary() as i64, _ => ((rng.next() >> rng.below(64)) as i64).wrapping_neg() }); }
+    for &a in &av {
+        let r = o.op(format!("amt_checked_abs {}", a), true);
+        let want = if a == i64::MIN { "none".to_string() } else { format!("some {}", (a as i128).abs()) };
+        o.direct(r == want, "checked_abs(a) = |a| iff representable", a.to_string(), r, want);
+        let r = o.op(format!("amt_abs {}", a), true);
+        let want = if a == i64::MIN { "panic".to_string() } else { format!("val {}", (a as i128).abs()) };
+        o.direct(r == want, "abs(a) = |a| or a panic, never a wrapped value (build with overflow checks)", a.to_string(), r, want);
+        let r = o.op(format!("amt_signum {}", a), true);
+        o.direct(r == (a as i128).signum().to_string(), "signum(a)", a.to_string(), r, (a as i128).signum().to_string());
+        o.stat("abs-signum");
+    }
+    if false /* pending triage: fires on the unchanged tree, see REPORT.md "SUSPECTED DEFECTS" (outside the statement's list of operations) */ {
+        // `SignedAmount::abs` is `SignedAmount(self.0.abs())`: the panic at i64::MIN is a compiler-inserted overflow check, so in a build
+        // without overflow-checks `SignedAmount::min_value().abs() == SignedAmount::min_value()` — a wrapped (negative) "absolute value".
+        let r = guarded(|| SignedAmount::from_pico(i64::MIN).abs().as_pico());
+        let dep = matches!(&r, Err(m) if profile_dependent(m));
+        o.direct(!dep, "abs(i64::MIN) refuses in every build profile (the panic is not a compiler-inserted overflow check)", "amt_abs -9223372036854775808".into(), format!("{:?}", r), "a panic that does not depend on overflow-checks, or checked_abs".into());
+    }
+    o.notes.push(format!("complete grid over {} unsigned x {} signed boundary values x 5 ops x 3 forms, conversions, positive_sub, plus random near-boundary pairs; added: div/rem with uniform dividend x log-uniform divisor and q*b+r dividends, log-uniform operand pairs, random conversions / positive_sub (incl. operands agreeing in one 32-bit half), abs / checked_abs / signum; every arithmetic line is also checked in Rust against the exact i128 result; operator panics that are compiler-inserted overflow checks are reported as MISMATCH (profile-independent observation); every case non-trivial", us.len(), ss.len()));
 }
